@@ -108,3 +108,49 @@ def random_body(rng, depth, n, leaves, p_block=0.14, p_if=0.10):
         else:
             out.append(rng.choice(leaves))
     return out
+
+
+def enum_syntax(n, depth, leaves):
+    """All bodies with exactly n statement nodes whose if-branches are arbitrary
+    statements (naked or braced), for the syntax analyzer (C06)."""
+    bmemo, smemo = {}, {}
+    def bodies(n, depth):
+        key = (n, depth)
+        if key in bmemo: return bmemo[key]
+        if n == 0:
+            bmemo[key] = [[]]; return bmemo[key]
+        out = []
+        for k in range(1, n + 1):
+            for f in stmts(k, depth):
+                for r in bodies(n - k, depth):
+                    out.append([f] + r)
+        bmemo[key] = out
+        return out
+    def stmts(k, depth):
+        key = (k, depth)
+        if key in smemo: return smemo[key]
+        out = []
+        if k == 1: out += list(leaves)
+        if depth > 0:
+            for inner in bodies(k - 1, depth - 1):
+                out.append(('block', inner))
+            for t in stmts(k - 1, depth - 1):
+                out.append(('ifs', t, None))
+            for a in range(1, k - 1):
+                for t in stmts(a, depth - 1):
+                    for e in stmts(k - 1 - a, depth - 1):
+                        out.append(('ifs', t, e))
+        smemo[key] = out
+        return out
+    return bodies(n, depth)
+
+
+def random_syntax_stmt(rng, depth, leaves):
+    x = rng.random()
+    if depth > 0 and x < 0.25:
+        return ('block', [random_syntax_stmt(rng, depth - 1, leaves) for _ in range(rng.randint(0, 4))])
+    if depth > 0 and x < 0.5:
+        t = random_syntax_stmt(rng, depth - 1, leaves)
+        e = random_syntax_stmt(rng, depth - 1, leaves) if rng.random() < 0.55 else None
+        return ('ifs', t, e)
+    return rng.choice(leaves)
